@@ -737,6 +737,55 @@ func exec(line string) hx.Result {
 	return hx.Result{Out: "bad-op"}
 }
 
+// every constant a length / count is compared with, at c-1, c, c+1:
+// PushBytes/ReadBytes 75 | 0x100 | 0x10000, ReadNum 16 | 65535, n 1 | 16, len(program) 2, DeserializePublicKey len 3
+func thresholdCorpus() []string {
+	buildPool()
+	var out []string
+	lens := []int{1, 74, 75, 76, 77, 254, 255, 256, 257, 65534, 65535, 65536, 65537}
+	for _, n := range lens {
+		sig := make([]byte, n)
+		for i := range sig {
+			sig[i] = byte(i*7 + n)
+		}
+		out = append(out, "R "+hx.Hex(sig), "R "+hexList([][]byte{{9}, sig, {8}}))
+		if n < 300 {
+			for f := 0; f < 4; f++ {
+				out = append(out, "Q "+hx.Hex(push(sig, f)), pLine(append(push(sig, f), 0xAC)))
+			}
+			out = append(out, "Q "+hx.Hex(push(sig, 0)[:n]), "Q "+hx.Hex(append(push(sig, 0), 1)))
+		}
+	}
+	// ReadNum through pushed bytes (little-endian, signed): around 16 and 65535, negative, over-long
+	key := push(keypair.SerializePublicKey(pool[0]), 0)
+	for _, d := range [][]byte{{15}, {16}, {17}, {18}, {0x7f}, {0x80}, {0x80, 0}, {0xff, 0}, {0, 1}, {0xfe, 0xff, 0}, {0xff, 0xff, 0}, {0, 0, 1},
+		{0xff, 0xff}, {0xff}, {17, 0, 0, 0, 0, 0, 0, 0, 1}, {0xff, 0xff, 0, 0, 0, 0, 0, 0, 1}, {0, 0, 0, 0, 0, 0, 0, 0x80}, {0, 0, 0, 0, 0, 0, 0, 0x80, 0}} {
+		sc := append(push(d, 0), key...)
+		sc = append(sc, key...)
+		sc = append(sc, 0x52, 0xAE)
+		out = append(out, pLine(sc))
+	}
+	// n = 1, 2, 15, 16, 17, 18 keys: real builder (M) and hand-assembled scripts (P), m at 0, 1, n, n+1
+	for _, n := range []int{1, 2, 15, 16, 17, 18} {
+		ks := append([]keypair.PublicKey{}, pool[:n]...)
+		for _, m := range []int{0, 1, n - 1, n, n + 1} {
+			out = append(out, fmt.Sprintf("M %d %s", m, toks(ks)))
+			sorted := keypair.SortPublicKeys(append([]keypair.PublicKey{}, ks...))
+			sc := num(m, 0, false)
+			for _, d := range sers(sorted) {
+				sc = append(sc, push(d, 0)...)
+			}
+			sc = append(sc, num(n, 0, true)...)
+			out = append(out, pLine(append(sc, 0xAE)))
+		}
+	}
+	// DeserializePublicKey: len(data) <= 3
+	for _, d := range [][]byte{{0x14, 0x19, 1}, {0x14, 0x19, 1, 2}, {2, 1, 2}, {2, 1, 2, 3}} {
+		out = append(out, pLine(append(push(d, 0), 0xAC)))
+	}
+	return out
+}
+
 func main() {
 	buildPool()
 	p256 := keypair.SerializePublicKey(pool[0])
@@ -749,7 +798,7 @@ func main() {
 			"Q/R: parameter scripts. Non-trivial = distinct line; kinds = op:outcome",
 		Gen:  gen,
 		Exec: exec,
-		Corpus: []string{
+		Corpus: append(thresholdCorpus(), []string{
 			"P - -", "P ac -", "P ae -", "P 51ae -", "P 5151ae -", "P 0000ae -", "P 005100ae -", "P 515151ae -", "P 4c00ac -", "P 0101ac -",
 			pLine(append(append([]byte{0x51}, two...), 0x52, 0xAE)),                   // 1-of-2 by hand
 			pLine(append(append([]byte{0x00}, two...), 0x52, 0xAE)),                   // m = 0
@@ -759,7 +808,7 @@ func main() {
 			pLine(append(append([]byte{0x51}, push(p256, 0)...), 0x51, 0xAE)),         // n = 1
 			pLine(append(push(p256, 1), 0xAC)), pLine(append(push(p256, 2), 0xAC)), pLine(append(push(p256, 3), 0xAC)),
 			"Q -", "Q 00", "Q 4c00", "Q 4d0000", "Q 4e00000000", "Q 4c", "Q 4e000000", "Q 0101", "Q 0201", "Q 4f", "R -",
-		},
+		}...),
 		N: map[string]int{"quick": 12000, "thorough": 200000},
 	})
 }
